@@ -1137,6 +1137,18 @@ func (c *cl) restoreBackups() {
 		idx, bver := r.Raft.VerifFSMState()
 		ev["idx"], ev["bver"], ev["version"] = idx, bver, r.Raft.VerifBalloonVersion()
 		c.emit(ev)
+		if i%2 == 1 {
+			// the restored node is stopped and started again before its first insertion: what it
+			// did to become usable (applied-index reset) has to be durable
+			c.stopNode(2)
+			if err := c.startNode(2, false, nil); err != nil {
+				c.emit(trace.Ev{"a": "info", "what": "restored node failed to restart: " + truncate(err.Error(), 160)})
+				os.RemoveAll(dir)
+				continue
+			}
+			qcluster.WaitFor(15*time.Second, r.Raft.IsLeader)
+			r.Raft.VerifBarrier(5 * time.Second)
+		}
 		// membership + consistency of the first v+1 events against the ORIGINAL snapshots
 		ver := r.Raft.VerifBalloonVersion()
 		for v := uint64(0); v < ver && v < uint64(len(c.log)); v++ {
